@@ -33,6 +33,9 @@ CLAIMED['C09'] = ('irsym', 'bounded symbolic execution of the clang IR over the 
 CLAIMED['C14'] = ('irsym', 'bounded symbolic execution of the clang IR over the exact reals, one case per sign pattern of the direction; existential geometric facts are discharged as z3 queries with a free ray parameter',
     'For every box (also empty/flat), origin and direction in the stated range: a miss is proved to mean that NO t>=0 (resp. no real t) puts the point in the closed box (fresh universally quantified t, no second slab implementation as oracle), a hit that ip/entry/exit lie in the box, on the ray, at the origin if inside else at the first contact on the surface, ordered and extreme - on every one of the ~350 paths per sign pattern.',
     ENGC_NOTE + ' IEEE overflow of the guarded divisions is outside this engine.', '3/C14')
+CLAIMED['C15'] = ('irsym', 'bounded symbolic execution of the clang IR over the exact reals (Vec::length() replaced by its separately proved contract); z3 SMT-core nonlinear arithmetic + nlsat portfolio',
+    'Line3 (set, closestPointTo/distanceTo point and line, closestPoints), Plane3 (three constructors, distanceTo, reflectPoint/Vector incl. involution, intersect/intersectT, negation), Sphere3::circumscribe, project/orthogonal/reflect/closestVertex are proved to satisfy their defining geometric equations for all real inputs in a 2^20 box on every path, including the guarded nearly-parallel branches. Sphere3::intersectT, closestVertex(line), rotatePoint and the triangle test are attempted but budgeted (reported undecided when nlsat does not finish).',
+    ENGC_NOTE + ' Compositional: callers of Vec3::length() are verified against its contract (l >= 0, l*l == sum of squares), which C08 decides for the real body.', '3/C15')
 NOT_YET = 'check not built yet in this working session (planned in DESIGN.md section 3); no claim is made'
 NA = {}
 
@@ -63,7 +66,7 @@ def main():
         'engines': [
             {'name': 'cbmc-c', 'path': 'harness/c01/half_c.c + vf/cbmc.py', 'serves_properties': ['C01', 'C02'], 'kind_free_text': 'CBMC on half.h compiled as C'},
             {'name': 'ir2c', 'path': 'vf/ll2c.py + vf/build.py + vf/cbmc.py', 'serves_properties': sorted(CLAIMED), 'kind_free_text': 'clang++-14 -O1 LLVM IR of wrapper TUs (real headers / real .cpp) -> own IR->C translator -> CBMC (minisat/cadical/kissat/z3/cvc5)'},
-            {'name': 'irsym', 'path': 'vf/irsym.py + vf/symcase.py', 'serves_properties': ['C05', 'C06', 'C09', 'C14'], 'kind_free_text': 'own symbolic executor over the same LLVM IR, floats as exact reals, z3 nlsat'},
+            {'name': 'irsym', 'path': 'vf/irsym.py + vf/symcase.py', 'serves_properties': ['C05', 'C06', 'C09', 'C14', 'C15'], 'kind_free_text': 'own symbolic executor over the same LLVM IR, floats as exact reals, z3 nlsat'},
         ],
         'checks': checks,
         'not_applicable': na,
